@@ -67,6 +67,7 @@ DoCall(c) ==
     [] op = "Log"          -> IF CanLog(c) THEN Log(c, Ev.ty) ELSE FALSE
     [] op = "ActionLog"    -> IF CanActionLog(c, Ev.a) THEN ActionLog(c, Ev.a, Ev.ty) ELSE FALSE
     [] op = "AddSuccess"   -> AddSuccess(c, Ev.a, Ev.f)
+    [] op = "RawWrite"     -> RawWrite(c)
     [] op = "WriteTraceback" -> IF CanLog(c) THEN WriteTraceback(c, Ev.o) ELSE FALSE
     [] op = "Register"     -> Register(c, Ev.k)
     [] op = "SerializeId"  -> IF CanSerializeId(c) THEN SerializeId(c) ELSE FALSE
